@@ -10,14 +10,17 @@ package dnsforward
 
 import (
 	"bytes"
+	"context"
 	"encoding/json"
 	"fmt"
 	"net/http"
 	"net/http/httptest"
 	"net/netip"
+	"slices"
 	"testing"
 	"time"
 
+	"github.com/AdguardTeam/AdGuardHome/internal/client"
 	"github.com/AdguardTeam/AdGuardHome/internal/filtering"
 	"github.com/AdguardTeam/AdGuardHome/internal/vfkit"
 	"pgregory.net/rapid"
@@ -41,6 +44,14 @@ func TestVFC01Runtime(t *testing.T) {
 		}
 		handlers := map[string]http.HandlerFunc{}
 		wc := c.world()
+		if c.Client != nil {
+			// a second client, never the source of a query, for updates that
+			// must be rejected because they would share its identifier
+			wc.Clients = append(wc.Clients, &client.Persistent{
+				Name: "printer", UID: client.MustNewUID(), IPs: []netip.Addr{netip.MustParseAddr("203.0.113.99")},
+				BlockedServices: &filtering.BlockedServices{Schedule: vfEmptyWeek()},
+			})
+		}
 		wc.LocalListURLs = true
 		wc.HTTPRegister = func(method, url string, h http.HandlerFunc) { handlers[method+" "+url] = h }
 		webRegistered = false
@@ -50,6 +61,7 @@ func TestVFC01Runtime(t *testing.T) {
 		}
 		defer w.close()
 		w.flt.Start()
+		ctx := context.Background()
 
 		call := func(method, path string, body any) {
 			h := handlers[method+" "+path]
@@ -79,6 +91,9 @@ func TestVFC01Runtime(t *testing.T) {
 				if len(c.Allow) > 0 {
 					kinds = append(kinds, "toggle_allow", "toggle_allow")
 				}
+				if c.Client != nil {
+					kinds = append(kinds, "client_update", "client_update_rejected")
+				}
 				kind := rapid.SampledFrom(kinds).Draw(t, label+"_kind")
 				vfC01.Class("rt:op:" + kind)
 				switch kind {
@@ -102,6 +117,31 @@ func TestVFC01Runtime(t *testing.T) {
 						// remember: the next toggle of the same list re-enables it
 						// with unchanged contents
 						continue
+					}
+				case "client_update", "client_update_rejected":
+					// what POST /control/clients/update does with the registry
+					prev, ok := w.storage.FindByName(c.Client.Name)
+					if !ok {
+						t.Fatalf("the client %q is not in the registry any more\nconfig: %v", c.Client.Name, c.describe())
+					}
+					upd := prev.ShallowClone()
+					if kind == "client_update" {
+						c.Client.OwnSettings = rapid.Bool().Draw(t, label+"_ownsettings")
+						c.Client.FilteringOn = rapid.Bool().Draw(t, label+"_filtering")
+						upd.UseOwnSettings, upd.FilteringEnabled = c.Client.OwnSettings, c.Client.FilteringOn
+						if uerr := w.storage.Update(ctx, c.Client.Name, upd); uerr != nil {
+							t.Fatalf("updating the settings of client %q was refused: %v", c.Client.Name, uerr)
+						}
+					} else {
+						// would share the printer's address (or its name)
+						if rapid.Bool().Draw(t, label+"_clash_name") {
+							upd.Name = "printer"
+						} else {
+							upd.IPs = append(slices.Clone(upd.IPs), netip.MustParseAddr("203.0.113.99"))
+						}
+						if uerr := w.storage.Update(ctx, c.Client.Name, upd); uerr == nil {
+							t.Fatalf("an update of client %q that shares the name or address of another client was accepted", c.Client.Name)
+						}
 					}
 				case "set_rules":
 					n := rapid.IntRange(0, 4).Draw(t, label+"_n")
